@@ -780,7 +780,7 @@ func (x *executor) checkPost(m *machine, fr *frame, rs []Val) {
 		}
 		declared := false
 		for _, mt := range x.modSet {
-			if mt.iface == k {
+			if tokenKey(mt.iface) == k {
 				declared = true
 			}
 		}
